@@ -35,6 +35,7 @@ TRUSTED = [
 def scripts_for(ctx: Ctx):
     rng = ctx.rng
     scripts = list(gen.boundary_c12()) + gen.resub_family() + gen.worker_family() + gen.callback_family() + gen.raise_family() + gen.scene_family()
+    scripts = gen.string_family() + scripts + gen.family_variants(scripts)
     for _ in range(ctx.n(800, 20000)):
         scripts.append(gen.random_script(rng, 30, "c12"))
     scripts += gen.exhaustive_c12(2 if ctx.quick else 4)
@@ -59,7 +60,7 @@ def run(ctx: Ctx):
 
 
 def search(ctx: Ctx):
-    scripts = list(gen.boundary_c12()) + gen.resub_family() + gen.worker_family() + gen.callback_family() + gen.raise_family() + gen.scene_family() + gen.exhaustive_c12(3) + [gen.random_script(ctx.rng, 30, "c12") for _ in range(4000)]
+    scripts = gen.string_family() + list(gen.boundary_c12()) + gen.resub_family() + gen.worker_family() + gen.callback_family() + gen.raise_family() + gen.scene_family() + gen.exhaustive_c12(3) + [gen.random_script(ctx.rng, 30, "c12") for _ in range(4000)]
     base.evaluate(ctx, scripts, "C12", compare_model=False)
 
 
